@@ -56,8 +56,14 @@ def need(res, names, what):
             raise common.MachineryFailure("vacuous TLC run (%s): action %s never taken" % (what, a))
 
 
+_shrunk = set()
+
+
 def report(chk, probs, extra):
     for p in probs:
+        if p["key"] not in _shrunk and extra.get("mode") in (S.G or {}):
+            _shrunk.add(p["key"])
+            p = S.shrink(S.G[extra["mode"]], p)
         chk.violation(p["key"], p["detail"] + " after history [" + p["python"] + "]",
                       dict(extra, history=p["history"], weighted=p["weighted"], unit=p["unit"], python=p["python"],
                            ref_state=p["ref_state"]))
@@ -68,7 +74,7 @@ def tlc_jobs(tier):
     the emission runs are single-worker and print-bound, the exhaustive ones share the cores."""
     from concurrent.futures import ThreadPoolExecutor
     jobs = {}
-    ex = ThreadPoolExecutor(max_workers=6)
+    ex = ThreadPoolExecutor(max_workers=5)
     for name, weighted, n, ops_mc, ops_hist, depth, units in plan(tier):
         if ops_mc:
             jobs[(name, "mc")] = ex.submit(S.impl_check, S.consts(n, ops_mc, weighted), weighted, 3000, 8)
@@ -76,7 +82,8 @@ def tlc_jobs(tier):
         jobs[(name, "hist")] = ex.submit(S.impl_histories, S.consts(n, ops_hist, weighted), weighted)
     for inv in ("CountExact", "MaxTight"):
         jobs[("drift", inv)] = ex.submit(S.impl_drift, S.consts(3, 4, True), inv)
-    ex.shutdown(wait=False)
+    # all TLC runs finish (and the threads are joined) before any process pool forks
+    ex.shutdown(wait=True)
     return jobs
 
 
@@ -95,9 +102,6 @@ def run_mode(chk, jobs, name, weighted, n, ops_mc, ops_hist, depth, units):
     H, hres = jobs[(name, "hist")].result()
     chk.add_tlc("ListDictImpl %s N=%d MaxOps=%d: one shortest history per distinct state (VIEW without op counter)" % (name, n, ops_hist), hres)
     S.G = {name: g}
-    # ---- TLC: representative histories of every distinct implementation state ------
-    H, hres = S.impl_histories(S.consts(n, ops_hist, weighted), weighted)
-    chk.add_tlc("ListDictImpl %s N=%d MaxOps=%d: one shortest history per distinct state (VIEW without op counter)" % (name, n, ops_hist), hres)
     for unit in units:
         extra = {"mode": name, "consts": {"N": n, "weighted": weighted}}
         # (a) all histories up to `depth`
